@@ -2,7 +2,7 @@
 //! deterministic builder `build(Params) -> Table`. Replay files hold the materialised `Table`,
 //! so this module is not needed to re-run a saved case.
 
-use crate::dbcenc::{Field, Layout, Table, Ty};
+use crate::dbcenc::{Field, Layout, Table, Tail, Ty};
 use proptest::prelude::*;
 
 #[derive(Clone, Debug)]
@@ -54,6 +54,8 @@ pub struct Params {
     pub str_skew: u8,
     pub layout: (u8, bool, bool),
     pub writer_explicit_schema: bool,
+    /// bytes behind the string block: (kind 0..=3, length parameter), see `dbcenc::Tail`
+    pub tail: (u8, u16),
 }
 
 fn sm(mut z: u64) -> u64 {
@@ -245,6 +247,10 @@ pub fn build(p: &Params) -> Table {
             empty_block: p.layout.2,
         },
         writer_explicit_schema: p.writer_explicit_schema,
+        tail: match p.tail.0 % 4 {
+            0 => Tail::default(),
+            k => Tail { kind: k, len: p.tail.1.max(1) },
+        },
     };
     debug_assert!(t.validate().is_ok(), "{:?}", t.validate());
     t
@@ -267,6 +273,16 @@ fn pool_item() -> impl Strategy<Value = PoolItem> {
         3 => (any::<u16>(), 0u8..12).prop_map(|(s, c)| PoolItem::SuffixOf(s, c)),
         2 => any::<u16>().prop_map(PoolItem::DupOf),
         1 => any::<u8>().prop_map(PoolItem::CollidingPair),
+    ]
+}
+
+/// A file that is longer than the table it holds: 30 % of the random tables
+fn tail() -> impl Strategy<Value = (u8, u16)> {
+    prop_oneof![
+        7 => Just((0u8, 0u16)),
+        1 => proptest::sample::select(vec![2u16, 4, 8, 16, 64, 512, 4096]).prop_map(|a| (1u8, a)),
+        1 => (1u16..200).prop_map(|n| (2u8, n)),
+        1 => (1u16..30).prop_map(|n| (3u8, n)),
     ]
 }
 
@@ -310,10 +326,11 @@ pub fn params(rows: BoxedStrategy<usize>, max_rows: usize, allow_i32_key: bool) 
             // 40 % of the tables have no array at all (the region where the rewritten file is
             // re-parsed strictly, without any header fix-up)
             proptest::bool::weighted(0.4),
+            tail(),
         ),
     )
         .prop_map(
-            move |((mut fields, palette, key, ki, key_mode), (n_rows, row_seed, pool, str_skew, layout, wes, no_arrays))| {
+            move |((mut fields, palette, key, ki, key_mode), (n_rows, row_seed, pool, str_skew, layout, wes, no_arrays, tail))| {
                 if no_arrays {
                     for f in fields.iter_mut() {
                         f.1 = 0;
@@ -342,6 +359,7 @@ pub fn params(rows: BoxedStrategy<usize>, max_rows: usize, allow_i32_key: bool) 
                     str_skew,
                     layout,
                     writer_explicit_schema: wes,
+                    tail,
                 }
             },
         )
@@ -373,5 +391,6 @@ pub fn grid_params(fields: Vec<(Ty, u8)>, key: Option<usize>, n_rows: usize, see
         str_skew: 0,
         layout: (0, false, false),
         writer_explicit_schema: true,
+        tail: (0, 0),
     }
 }
